@@ -2,7 +2,7 @@
 from e1 import E1
 FILES = ['src/reader/statistics.c', 'src/metadata/statistics.c', 'src/metadata/page_index.c', 'src/writer/page_writer.c',
          'src/thrift/parquet_types.c']
-BUDGET = {'quick': 600, 'thorough': 2400}
+BUDGET = {'quick': 840, 'thorough': 2400}
 TN = {0: 'bool', 1: 'i32', 2: 'i64', 3: 'i96', 4: 'float', 5: 'double', 6: 'bytes', 7: 'flba'}
 # every obligation here is decided in seconds by the SAT back ends once symex is through; two back ends per obligation keep
 # four obligations in flight with --jobs 8.  The arena/thrift queries (symbolic offsets) go to z3 first.
